@@ -37,6 +37,7 @@ def run(rep, tier):
     imagepsf_samples(rep, r, 25 * scale, lines, exps, metas)
     gridded(rep, r, 40 * scale, lines, exps, metas)
     prfadapter_probe(rep, r, 2 * scale)
+    origin_correspondence(rep, r, lines, exps, metas)
     out = drv.run(lines)
     if out is None:
         rep.tie_broken('model driver failed', drv.error)
@@ -238,6 +239,25 @@ def imagepsf_samples(rep, r, n, lines, exps, metas):
         lines.append(f'psf.coord {q(osx)} {q(ox)} {q(xs)} {q(x0)} {nx}')
         exps.append((lambda ii: (lambda o: o.startswith('ok') and abs(float(F(o.split()[1])) - ii) < 1e-9 and o.split()[2] == 'false'))(i))
         metas.append('imagepsf-coord')
+
+
+def origin_correspondence(rep, r, lines, exps, metas):
+    """(T) default origins of GriddedPSFModel and ImagePSF(origin=None) for odd and even ePSF sizes vs the Lean `griddedOrigin` / `imageOrigin`
+    (whose constants are regenerated from the source)"""
+    from astropy.nddata import NDData
+    from photutils.psf import GriddedPSFModel, ImagePSF
+    shapes = [(9, 9), (8, 8), (8, 9), (9, 10), (5, 12), (r.randint(4, 14), r.randint(4, 14))]
+    for ny, nx in shapes:
+        d = np.ones((ny, nx))
+        with warnings.catch_warnings():
+            warnings.simplefilter('ignore')
+            g = GriddedPSFModel(NDData(np.array([d, d, d, d]), meta={'grid_xypos': [(0, 0), (10, 0), (0, 10), (10, 10)], 'oversampling': 1}))
+            im = ImagePSF(d)
+            go, io = [float(v) for v in np.ravel(g.origin)[:2]], [float(v) for v in np.ravel(im.origin)[:2]]
+        lines.append(f'psf.origin {ny} {nx}')
+        exps.append((lambda a: (lambda o: o == 'ok ' + ' '.join(q(v) for v in a)))(go + io))
+        metas.append('default-origin')
+        rep.case(('origin', ny, nx), ny % 2 == 0 or nx % 2 == 0, kind='default-origin:' + ('even' if (ny % 2 == 0 or nx % 2 == 0) else 'odd'))
 
 
 def prfadapter_probe(rep, r, n):
